@@ -5,7 +5,7 @@ import z3
 
 from pyvc import types as ty
 from pyvc.contract import Contract
-from pyvc.values import SObj
+from pyvc.values import SObj, fresh_name
 from spec import ops
 from spec.ops import And, Implies, Not, Or
 
@@ -291,3 +291,112 @@ def fixed_positions_arg_sets():
         eng._scenario = {"fixed": fixed, "max_coord": 200}
         out.append({"self": eng})
     return out
+
+
+# =================================================================================================
+# place(prototype, x, y[, properties]) (C09):
+#   _extract_place_coordinates   x from the SECOND argument, y from the THIRD (each by _extract_coordinate, contract above)
+#   _lower_place_core            one IRPlaceEntity with a fresh id, the literal prototype, those coordinates in that order and the lowered
+#                                properties; the value returned stands for the entity and never becomes a combinator (its materialisation
+#                                is suppressed); fewer than three arguments or a non-literal prototype are reported and place nothing
+# =================================================================================================
+PC = {}
+
+
+def _pc_coord(ex, a):
+    PC.setdefault("coord_of", []).append(a.coord_expr)
+    return ghost(a.coord_expr, "coordinate", _VREF)
+
+
+def _pc_place(ex, a):
+    PC.setdefault("placed", []).append(a)
+    return None
+
+
+def _pc_const(ex, a):
+    r = SObj(["SignalRef"], fresh_name("entity_value"), lazy=False)
+    r._fields.update({"signal_type": a.signal_type, "source_id": z3.String(fresh_name("entity_value_id"))})
+    PC.setdefault("consts", []).append(r)
+    return r
+
+
+def _pc_get_op(ex, a):
+    for r in PC.get("consts", []):
+        if a.node_id is r.source_id:
+            n = r._fields.get("@node")
+            if n is None:
+                n = SObj(["IRConst"], fresh_name("entity_value_node"), lazy=False)
+                n._fields["debug_metadata"] = {}
+                r._fields["@node"] = n
+            return n
+    raise NotImplementedError("lookup of another node")
+
+
+_pc_coord_c = Contract(qualname=EL + "_extract_coordinate", params={"self": _OPQ, "coord_expr": _OPQ}, effect=_pc_coord, verify=False, note="proved above")
+_PC_USES = {"ExpressionLowerer._extract_coordinate": _pc_coord_c,
+            "IRBuilder.place_entity": Contract(qualname="dsl_compiler/src/ir/builder.py::IRBuilder.place_entity", params={"self": _OPQ, "entity_id": _OPQ, "prototype": _OPQ, "x": _OPQ, "y": _OPQ,
+                                                                                                                      "properties": _OPQ, "source_ast": _OPQ},
+                                               defaults={"properties": None, "source_ast": None}, effect=_pc_place, verify=False, note="verified separately (contracts.c02): one IRPlaceEntity with these arguments"),
+            "IRBuilder.const": Contract(qualname="dsl_compiler/src/ir/builder.py::IRBuilder.const", params={"self": _OPQ, "signal_type": _OPQ, "value": _OPQ, "source_ast": _OPQ},
+                                        defaults={"source_ast": None}, effect=_pc_const, verify=False, note="verified separately (contracts.c02)"),
+            "IRBuilder.get_operation": Contract(qualname="dsl_compiler/src/ir/builder.py::IRBuilder.get_operation", params={"self": _OPQ, "node_id": _OPQ}, effect=_pc_get_op, verify=False,
+                                                note="dictionary lookup: the node of the constant just created"),
+            "IRBuilder.allocate_implicit_type": Contract(qualname="dsl_compiler/src/ir/builder.py::IRBuilder.allocate_implicit_type", params={"self": _OPQ}, effect=lambda ex, a: z3.String("fresh_implicit_type"),
+                                                         verify=False, note="fresh implicit type name"),
+            "IRBuilder.next_id": Contract(qualname="dsl_compiler/src/ir/builder.py::IRBuilder.next_id", params={"self": _OPQ, "prefix": _OPQ}, defaults={"prefix": "ir"},
+                                          effect=lambda ex, a: z3.String("fresh_id"), verify=False, note="fresh node id"),
+            "ExpressionLowerer.lower_dict_literal": Contract(qualname=EL + "lower_dict_literal", params={"self": _OPQ, "expr": _OPQ}, effect=lambda ex, a: PC.setdefault("props", {"lowered-from": a.expr}),
+                                                             verify=False, note="the lowered property dictionary"),
+            "ExpressionLowerer._error": Contract(qualname=EL + "_error", params={"self": _OPQ, "message": _OPQ, "node": _OPQ}, defaults={"node": None},
+                                                 effect=lambda ex, a: PC.setdefault("errors", []).append(a.message), verify=False, note="records a compile error"),
+            "ExpressionLowerer._extract_place_prototype": "inline", "ExpressionLowerer._extract_place_coordinates": "inline", "ExpressionLowerer._extract_place_properties": "inline",
+            "ExpressionLowerer.ir_builder": "inline"}
+_PC_DYN = {"self": {"parent": ty.TObj("ASTLowerer", only=("ASTLowerer",))}, "self.parent": {"ir_builder": ty.TObj("IRBuilder", only=("IRBuilder",))}}
+_ARG = ty.TObj("Expr", only=("NumberLiteral", "IdentifierExpr", "BinaryOp"))
+_PROTO = ty.TObj("StringLiteral", only=("StringLiteral",), ftypes=(("value", ty.Str),))
+
+
+def _coords_post(a, res):
+    e = a.expr
+    return (isinstance(res, tuple) and len(res) == 2 and PC.get("coord_of") is not None and len(PC["coord_of"]) == 2 and PC["coord_of"][0] is e.args[1] and PC["coord_of"][1] is e.args[2]
+            and res[0] is e.args[1]._fields.get("@coordinate") and res[1] is e.args[2]._fields.get("@coordinate"))
+
+
+CONTRACTS.append(Contract(
+    qualname=EL + "_extract_place_coordinates",
+    params={"self": ty.TObj("ExpressionLowerer", only=("ExpressionLowerer",)), "expr": ty.TObj("CallExpr", only=("CallExpr",), ftypes=(("args", ty.TTuple((_PROTO, _ARG, _ARG))),))},
+    requires=[("(reset capture)", lambda a: PC.clear() or True)],
+    ensures=[("x is the coordinate of the second argument, y of the third", _coords_post)],
+    uses=_PC_USES, dynamic_types=_PC_DYN, properties=("C09",), min_obligations=1, no_replay=True))
+
+
+def _place_core_post(nargs, literal_proto):
+    def post(a, res):
+        e = a.expr
+        placed = PC.get("placed", [])
+        if nargs < 3 or not literal_proto:
+            return not placed and len(PC.get("errors", [])) == 1 and isinstance(res, tuple) and res[0] == "error_entity"
+        if len(placed) != 1 or not isinstance(res, tuple) or len(res) != 2:
+            return False
+        p = placed[0]
+        x, y = e.args[1]._fields.get("@coordinate"), e.args[2]._fields.get("@coordinate")
+        value_ref = res[1]
+        node = value_ref._fields.get("@node") if isinstance(value_ref, SObj) else None
+        ok = [p.prototype is e.args[0].value, p.x is x, p.y is y, p.entity_id is res[0] or ops.eq(p.entity_id, res[0]) is not False,
+              node is not None and node._fields["debug_metadata"].get("suppress_materialization") is True, not PC.get("errors")]
+        if nargs == 4:
+            ok.append(p.properties is PC.get("props") and PC["props"]["lowered-from"] is e.args[3])
+        else:
+            ok.append(p.properties is None)
+        return all(bool(x_) if isinstance(x_, bool) else True for x_ in ok) and all(x_ is not False for x_ in ok)
+    return post
+
+
+for _n, _lit in ((2, True), (3, True), (4, True), (3, False)):
+    _args = [(_PROTO if _lit else ty.TObj("Expr", only=("IdentifierExpr",))), _ARG, _ARG, ty.TObj("DictLiteral", only=("DictLiteral",))][:_n]
+    CONTRACTS.append(Contract(
+        qualname=EL + "_lower_place_core",
+        params={"self": ty.TObj("ExpressionLowerer", only=("ExpressionLowerer",)), "expr": ty.TObj("CallExpr", only=("CallExpr",), ftypes=(("args", ty.TTuple(tuple(_args))),))},
+        requires=[("(reset capture)", lambda a: PC.clear() or True)],
+        ensures=[("one placement: the literal prototype, x and y in this order, the lowered properties; the entity's value is never materialised; malformed calls place nothing", _place_core_post(_n, _lit))],
+        uses=_PC_USES, dynamic_types=_PC_DYN, properties=("C09",), min_obligations=1, no_replay=True, note=f"{_n} arguments, prototype {'literal' if _lit else 'not a literal'}"))
